@@ -22,7 +22,8 @@ PALETTES = [['#102030', '#203040'], ['#111111', '#222222', '#333333'], ['#400000
             ['#101010', '#202020', '#303030', '#404040', '#505050', '#606060'], ['52', '22', '17'], ['red', 'blue'],
             # distinct colours that are neighbours (they fall on one cell of the 256-colour cube)
             ['#2c2c2c', '#303030'], ['#5f0000', '#600101', '#5e0100'], ['#0000d7', '#0101d6', '#00d700']]
-AUTHORS = ['Dan Davison', 'Ann', 'Jörg Müller', '山田 太郎', 'x y z w', 'Thomas Otto', "O'Neil", 'a-b c', 'Bo', 'A', 'J. (Jim) Doe', '语']
+AUTHORS = ['Dan Davison', 'Ann', 'Jörg Müller', '山田 太郎', 'x y z w', 'Thomas Otto', "O'Neil", 'a-b c', 'Bo', 'A', 'J. (Jim) Doe', '语',
+           'Kangwook Lee (이강욱)', '山田太郎山田太郎山田', 'ＡＢＣＤＥＦＧＨＩＪＫＬＭＮ', 'Ze\u0301 Anto\u0301nio de Almeida Prado', 'A Very Long Author Name Indeed']
 
 
 def plan(ctx):
@@ -111,9 +112,11 @@ def run_item(item):
         model, pattern = gen_model(rng)
         text = corpus.blame_text(model)
     palette = rng.choice(PALETTES)
-    fmt_cls = rng.choice(['commit-author-time', 'time-commit', 'commit-only', 'author-commit'])
+    fmt_cls = rng.choice(['commit-author-time', 'time-commit', 'commit-only', 'author-commit', 'author-prec14', 'author-prec5'])
     fmt = {'commit-author-time': '{commit:<8}¦{author:<14}¦{timestamp:<16}', 'time-commit': '{timestamp:<16}¦{commit:<9}',
-           'commit-only': '{commit:<8}', 'author-commit': '{author:>16}¦{commit:<8}'}[fmt_cls]
+           'commit-only': '{commit:<8}', 'author-commit': '{author:>16}¦{commit:<8}',
+           # a precision is a maximal number of characters (delta's own default format has one: {author:<15.14})
+           'author-prec14': '{commit:<8}¦{author:<15.14}¦{timestamp:<16}', 'author-prec5': '{author:<10.5}¦{commit:<8}'}[fmt_cls]
     sepcls = rng.choice(['every', 'every', 'block', 'none'])
     sepfmt = {'every': '‖{n:^5}‖', 'block': '‖{n:^5_block}‖', 'none': 'none'}[sepcls]
     tabs = rng.choice([8, 4, 2])
@@ -200,7 +203,8 @@ def run_item(item):
         else:
             fields = [f.strip() for f in meta.split('¦')]
             want = {'commit-author-time': [shown_hash, cm['author'], tstr], 'time-commit': [tstr, shown_hash],
-                    'commit-only': [shown_hash], 'author-commit': [cm['author'], shown_hash]}[fmt_cls]
+                    'commit-only': [shown_hash], 'author-commit': [cm['author'], shown_hash],
+                    'author-prec14': [shown_hash, cm['author'][:14].strip(), tstr], 'author-prec5': [cm['author'][:5].strip(), shown_hash]}[fmt_cls]
             if kind == 'real':
                 want = [w for w in want]
             if fields != want:
